@@ -61,6 +61,7 @@ def summarize(rep: Report, jobs, results, prop, level, rule, extra_cov=None, fea
     agg = Counter()
     samples = []
     crashes = []
+    byid_cache = {}
     timed_out = []
     rejected = Counter()
     fam = Counter()
@@ -82,8 +83,14 @@ def summarize(rep: Report, jobs, results, prop, level, rule, extra_cov=None, fea
             rejected[r["detail"].split(":")[0]] += 1
             continue
         if r.get("complaints"):
+            # the compiler emitted a text that cannot be assembled / executed at all (undecodable immediate, unknown
+            # opcode or label): whatever the program was meant to do, it cannot do it
             agg["front_end_rejects"] += 1
-            rep.harness_error("front-end rejects emitted TEAL for %s: %s" % (r["id"], r["complaints"][:2]))
+            byid = byid_cache.setdefault("m", {j.get("id"): j for j in jobs})
+            j = byid.get(r["id"], {})
+            rep.violation({"kind": "unassemblable", "id": r["id"], "complaints": r["complaints"][:4], "teal": (r.get("teal") or "")[-2500:],
+                           "job": {k: v for k, v in j.items() if k not in ("rec", "recB")}, "recipe": j.get("rec"), "version": r.get("version")},
+                          ["unassemblable"])
             continue
         fam[r.get("family")] += 1
         for k in ("obligations", "discharged", "inconclusive", "ref_paths", "teal_paths", "ref_cut", "replayed", "unconfirmed"):
